@@ -11,7 +11,7 @@ import itertools
 import z3
 
 FAMILIES = {
-    "sin": "sin^2+cos^2=1, |sin|,|cos|<=1, sign of sin/cos on the quadrants of [-pi,pi], values at 0, +-pi/2, pi",
+    "sin": "sin^2+cos^2=1, |sin|,|cos|<=1, sign of sin/cos on the quadrants of [-pi,pi], values at 0, +-pi/2, pi; Lipschitz bounds |sin t|<=|t|, |sin t|<=|t-+pi|, |cos t|<=|t-+pi/2|; shift/reflection laws for pairs of arguments whose difference or sum is 0, +-pi/2, +-pi, 2pi",
     "cos": "see sin",
     "tan": "tan*cos=sin",
     "sqrt": "x>=0 -> sqrt(x)>=0 and sqrt(x)^2=x; monotone on pairs",
@@ -50,6 +50,8 @@ def instantiate(ctx, start):
                 out.append(z3.Implies(z3.And(t > -pi / 2, t < pi / 2), k > 0))
                 out.append(z3.Implies(z3.And(t > pi / 2, t < 3 * pi / 2), k < 0))
                 out.append(z3.Implies(z3.And(t > -3 * pi / 2, t < -pi / 2), k < 0))
+                ab = lambda e: z3.If(e >= 0, e, -e)
+                out.append(z3.And(ab(s) <= ab(t), ab(k) <= ab(t - pi / 2), ab(k) <= ab(t + pi / 2), ab(s) <= ab(t - pi), ab(s) <= ab(t + pi)))
                 out.append(z3.Implies(t == 0, z3.And(s == 0, k == 1)))
                 out.append(z3.Implies(t == pi / 2, z3.And(s == 1, k == 0)))
                 out.append(z3.Implies(t == -pi / 2, z3.And(s == -1, k == 0)))
@@ -112,6 +114,20 @@ def instantiate(ctx, start):
         # pairwise monotonicity / functional consistency with earlier applications of the same symbol
         for (n2, a2, c2) in ctx.uf_list[: i - 1]:
             if n2 != name:
+                continue
+            if name == "sin":  # shift / reflection laws between two arguments (conditional, hence always sound)
+                t1, t2 = args[0], a2[0]
+                s1, k1 = _sincos(ctx, t1)
+                s2, k2 = _sincos(ctx, t2)
+                pi = ctx.pi().t
+                d, sm = t1 - t2, t1 + t2
+                out.append(z3.Implies(z3.Or(d == 2 * pi, d == -2 * pi, d == 0), z3.And(s1 == s2, k1 == k2)))
+                out.append(z3.Implies(z3.Or(d == pi, d == -pi), z3.And(s1 == -s2, k1 == -k2)))
+                out.append(z3.Implies(d == pi / 2, z3.And(s1 == k2, k1 == -s2)))
+                out.append(z3.Implies(d == -pi / 2, z3.And(s1 == -k2, k1 == s2)))
+                out.append(z3.Implies(z3.Or(sm == 0, sm == 2 * pi), z3.And(s1 == -s2, k1 == k2)))
+                out.append(z3.Implies(z3.Or(sm == pi, sm == -pi), z3.And(s1 == s2, k1 == -k2)))
+                out.append(z3.Implies(sm == pi / 2, z3.And(s1 == k2, k1 == s2)))
                 continue
             if len(args) == 1:
                 x, y = args[0], a2[0]
